@@ -763,6 +763,28 @@ class NF:
                 args, kws = args + [kws[k] for k in order], {}
         return args, kws
 
+    def _class_of_scope(self, sc):
+        """Qualified name of the class whose method the scope evaluates (from the scope's CFG function or its qualified name)."""
+        fn_ = getattr(getattr(sc, "cfg", None), "fn", None)
+        p_ = getattr(fn_, "_parent", None)
+        if isinstance(p_, ast.ClassDef):
+            mi_ = getattr(fn_, "_module", None) or sc.mi
+            q_ = self.repo.canonical(f"{mi_.name}.{p_.name}", p_)
+            try:
+                self.repo.cls(q_)
+                return q_
+            except Exception:
+                pass
+        q_ = getattr(sc, "qual", "") or ""
+        if "." in q_:
+            c_ = q_.rsplit(".", 1)[0]
+            try:
+                self.repo.cls(c_)
+                return c_
+            except Exception:
+                return None
+        return None
+
     def _module_call_order(self, n_pos: int, names: set):
         """Keywords of a call on an object whose class is not known statically (`critic(sa, zs=zs, zsa=zsa)`, possibly through a
         *args/**kwargs forwarder) are bound by signature: when every `__call__` of the repository that accepts exactly these keyword
@@ -842,6 +864,15 @@ class NF:
                         return r
             fname = f"{base.canon()}.{f.attr}"
             fdeps, fg = base.deps, base.gdeps
+            if kws and "**" not in kws and isinstance(f.value, ast.Name) and f.value.id == "self":
+                # keywords of a call of the object's own method are bound by its signature: one spelling of the call
+                cq_ = sc.self_class or self._class_of_scope(sc)
+                m_ = self.repo.method(cq_, f.attr) if cq_ else None
+                if m_ is not None and not m_[1].args.vararg:
+                    ps_ = [a_.arg for a_ in m_[1].args.posonlyargs + m_[1].args.args][1:] + [a_.arg for a_ in m_[1].args.kwonlyargs]
+                    args, kws = list(args), dict(kws)
+                    while len(args) < len(ps_) and ps_[len(args)] in kws:
+                        args.append(kws.pop(ps_[len(args)]))
         else:
             if isinstance(f, ast.Name) and f.id == "self" and sc.self_class and self.inline_calls and depth < self.inline_depth:
                 m = self.repo.method(sc.self_class, "__call__")
